@@ -160,6 +160,13 @@ for kind, depth, leaf in data.get("deep") or []:
         fp.seek(0)
         return walk_down(fast_json.load(fp), kind, depth)
     rec["file"] = attempt(file_rt)
+    # the document is not the first thing in the file: a first line has been read already, load() gets the rest
+    def file_positioned(mk, text):
+        fp = mk(text)
+        fp.readline()
+        return walk_down(fast_json.load(fp), kind, depth)
+    rec["file_positioned_text"] = attempt(file_positioned, io.StringIO, "# first line\n" + exp)
+    rec["file_positioned_binary"] = attempt(file_positioned, io.BytesIO, b'{"first": "document"}\n' + exp.encode("utf-8"))
     out["deep"].append(rec)
     del v
 pickle.dump(out, open(outp, "wb"))
